@@ -6,6 +6,7 @@ import (
 	"bytes"
 	"encoding/json"
 	"sort"
+	"strconv"
 )
 
 type Cue struct {
@@ -118,4 +119,42 @@ type OpEvent struct {
 	Res   string `json:"res"` // ok | panic | timeout
 	Unit  int64  `json:"-"`
 	Msg   string `json:"msg"`
+}
+
+// IntMap is a TLA+ function string |-> int (TLC prints the empty function as []).
+type IntMap map[string]int
+
+func (m *IntMap) UnmarshalJSON(b []byte) error {
+	b = bytes.TrimSpace(b)
+	*m = IntMap{}
+	if len(b) > 0 && b[0] == '[' {
+		return nil
+	}
+	var x map[string]int
+	if err := json.Unmarshal(b, &x); err != nil {
+		return err
+	}
+	*m = x
+	return nil
+}
+
+func (m IntMap) MarshalJSON() ([]byte, error) {
+	keys := make([]string, 0, len(m))
+	for k := range m {
+		keys = append(keys, k)
+	}
+	sort.Strings(keys)
+	var buf bytes.Buffer
+	buf.WriteByte('{')
+	for i, k := range keys {
+		if i > 0 {
+			buf.WriteByte(',')
+		}
+		kb, _ := json.Marshal(k)
+		buf.Write(kb)
+		buf.WriteByte(':')
+		buf.WriteString(strconv.Itoa(m[k]))
+	}
+	buf.WriteByte('}')
+	return buf.Bytes(), nil
 }
